@@ -131,6 +131,8 @@ try:
     REPLAY["kernel"] = _ck.replay_kernel
 except ImportError:
     pass
+from . import c03 as _c03r   # noqa: E402
+REPLAY["radius"] = _c03r.replay_radius
 
 
 # ------------------------------------------------------------------------------------- run
@@ -155,6 +157,9 @@ def run(ctx):
     except ImportError:
         ctx.note("layer 2 (kernel topology) not built: mesh topology is NOT decided by this check")
     t0 = time.time()
+    from . import c03 as _c03
+    ctx.stub("Hirshfeld (stockholder) surfaces of molecules in crystals take the exterior atoms from Crystal.molecule_environment: that it returns every atom within the radius is C03's lemma A, run here as a dependency section")
+    secs += _c03.dependency_sections({"molecule_environment"})
     ctx.parallel_sections([(n_, (lambda c, f=f_, n_=n_: (f(c), c.note("section %s took %.1fs" % (n_, time.time() - t0)))[0])) for n_, f_ in secs])
 
 
@@ -286,7 +291,7 @@ def part_glue(ctx):
         r = ctx.query("%s: every vertex = (1-t) pts[a] + t pts[b] for the grid points the density was sampled at (%dx%dx%d grid, %d edges, tolerance 1e-5 for float32 grid coordinates)"
                       % (fname, shp[0], shp[1], shp[2], len(es)), [t.t >= 0, t.t <= 1], z3.And(goals))
         # the sampled grid starts at the lower corner of the box and reaches the upper corner in every axis
-        span_ok = bool(np.allclose(pts.min(axis=0), lo, atol=1e-5) and np.all(pts.max(axis=0) >= hi - sep - 1e-5) and np.all(pts.max(axis=0) <= hi + 1e-5))
+        span_ok = bool(np.allclose(pts.min(axis=0), lo, rtol=0, atol=1e-5) and np.all(pts.max(axis=0) >= hi - sep - 1e-5) and np.all(pts.max(axis=0) <= hi + 1e-5))
         ctx.record("%s: sampling grid spans the density's bounding box in every axis (box with three different extents)" % fname, "holds" if span_ok else "counterexample", nontrivial=True)
         if not span_ok:
             bad.append(fname + " (grid does not span the box)")
